@@ -74,6 +74,20 @@ class P(Prop):
                 f = [[C.bits(e)] + q4_piece(rng) for e in e1]
                 g = [[C.bits(e)] + q4_piece(rng) for e in e2]
                 out.append(dict(op=op, f=f, g=g, meta={"class": op + "/long"}))
+        # the VALUE clause through the crate's own evaluation: constant staircases (every number but k zero, so that sums of values
+        # are exact), operands of up to 64 pieces whose sum / difference has more than 64, arguments on every breakpoint, between
+        # them and beyond both ends
+        for n1, n2 in ((5, 7), (16, 17), (33, 34), (40, 40), (64, 64), (60, 10), (2, 64)):
+            for sub in (False, True):
+                # positive abscissae only: the pieces are log-integral forms, evaluated through ln
+                e1 = [float(i + 1) for i in range(n1)]
+                e2 = [i + 1.5 for i in range(n2)] if rng.random() < 0.7 else [float(2 * (i + 1)) for i in range(n2)]
+                zero = [C.bits(0.0)] * 5
+                f = [[C.bits(e), C.bits(float(1000 + i))] + zero for i, e in enumerate(e1)]
+                g = [[C.bits(e), C.bits(float(7 * (i + 1)))] + zero for i, e in enumerate(e2)]
+                pts = sorted(set(e1 + e2))
+                xs = [pts[0] * 0.5] + pts + [p_ + 0.25 for p_ in pts] + [pts[-1] + 5.0]
+                out.append(dict(op="pw_merge_eval", sub=sub, f=f, g=g, xs=[C.bits(x) for x in xs], meta={"class": "merge_eval/staircase"}))
         # malformed stream
         for op in ("pw_add", "pw_sub"):
             shape, f, g = operand_pair(rng, 4)
@@ -88,10 +102,25 @@ class P(Prop):
         return out
 
     def coq_term(self, case, h):
+        if case["op"] == "pw_merge_eval":
+            return None
         k = "&IntOfLogPoly4::add" if case["op"] == "pw_add" else "&IntOfLogPoly4::sub"
         return "run_merge [] [] %s %s %s" % (C.kname(k), C.zlistlist(case["f"]), C.zlistlist(case["g"]))
 
     def oracle(self, case, h):
+        if case["op"] == "pw_merge_eval":
+            if h["r"] == "PANIC":
+                return "panic on well-formed operands: %s" % h.get("msg")
+            r = h["r"][1:]
+            for k, xb in enumerate(case["xs"]):
+                hv, fv, gv = C.fl(r[3 * k]), C.fl(r[3 * k + 1]), C.fl(r[3 * k + 2])
+                exp = fv - gv if case.get("sub") else fv + gv
+                if exp != exp or not (C.fl(xb) > 0):
+                    continue            # outside the domain of the log-integral pieces
+                if hv != exp:
+                    return "(f %s g)(%r) = %r but f(%r) = %r and g(%r) = %r (all evaluated by the crate; result has %d pieces)" % (
+                        "-" if case.get("sub") else "+", C.fl(xb), hv, C.fl(xb), fv, C.fl(xb), gv, h["r"][0])
+            return None
         f, g = case["f"], case["g"]
         wf = bool(f) and bool(g) and not any(C.is_nan_bits(s[0]) for s in f + g)
         if not wf:
